@@ -15,6 +15,10 @@ def contracts():
         out.append(solvers.step_contract(ivp.Cfg(layout, "mle", "filter", "ts1", q=1, d=2, pytree=True)))
         out.append(solvers.step_contract(ivp.Cfg(layout, "dynamic", "fixedpoint", "ts0", q=1, d=2, pytree=True)))
     out += [errors.estimator_contract(c) for c in errors.pytree_configs()]
+    # Taylor-coefficient initialisation of pytree-structured states (time-dependent polynomial fields): same numbers as flat
+    from contracts import jets
+
+    out += [jets.routine_contract("unroll", pytree=True), jets.routine_contract("via_jvp", pytree=True), jets.routine_contract("padded_scan", pytree=True)]
     return out
 
 
